@@ -181,12 +181,59 @@ Theorem C09_vertex_wrapper_total :
 Proof. exact (@vertex_res_total). Qed.
 Print Assumptions C09_vertex_wrapper_total.
 
-(* PARTIAL.  Full statement wanted: for every event built from banks, vertex() returns.
-   Proved: with the stages instantiated by the models of C15 (cluster_spacepoints_pub over the equality classes
-   of the space points) and C14 (fit_cluster_to_helix, find_vertices), vertex() returns PROVIDED the numeric
-   hypotheses of C14 (N1-N5, V1-V5: the named gaps N3/N4/V3/V4 - cost oracles never NaN, Nelder-Mead returns a
-   vector - are NOT proved anywhere) and
-     (Z1) SpacePoint::try_from does not panic on any avalanche of the event.
+(* the same, with the hypotheses on the fit and on find_vertices asked only of the clusters (vertex_clusters) and of
+   the track list (vertex_tracks) that THIS avalanche list leads to *)
+Theorem C09_vertex_wrapper_total_rel :
+  forall (A SP TR V : Type) (sp_of : A -> res SP) (cluster : list SP -> res (list (list SP) * list SP))
+         (fit : list SP -> res TR) (find : list TR -> res (option V * list TR)) (Pc : list SP -> Prop)
+         (avs : list A),
+  (forall a, In a avs -> sp_of a <> Panic) ->
+  (forall pts, exists cl rem, cluster pts = Ok (cl, rem) /\ forall c, In c cl -> Pc c) ->
+  (forall cl c, vertex_clusters sp_of cluster avs = Ok cl -> In c cl -> Pc c -> fit c <> Panic) ->
+  (forall trs, vertex_tracks sp_of cluster fit avs = Ok trs -> exists r, find trs = Ok r) ->
+  exists v, vertex_res sp_of cluster fit find (Ok avs) = Ok v.
+Proof. exact (@vertex_res_total_rel). Qed.
+Print Assumptions C09_vertex_wrapper_total_rel.
+
+(* PARTIAL.
+   FULL STATEMENT WANTED (the clause of the property): for every main event built from banks, vertex() returns - it
+   never panics - with no hypothesis beyond "the event was built from banks".
+
+   PROVED: with the stages instantiated by the models of C15 (cluster_spacepoints_pub over the equality classes of the
+   space points) and C14 (fit_cluster_to_helix, find_vertices; the optimiser argmin Executor + NelderMead is an
+   interaction tree that RECEIVES the cost function - Fit.strategy / run_strategy / asked, `ftree` for the track fit,
+   `vtree` for the vertex fit, both universally quantified), vertex() returns for an avalanche list avs PROVIDED the
+   premises below.  Every premise about numbers is asked only of the values THIS avalanche list leads to:
+   `vertex_clusters sp_of cluster avs` = the clusters Track::try_from is called on, `vertex_tracks sp_of cluster fit avs`
+   = the tracks find_vertices is handed, and, inside a fit, the parameter vectors the optimiser actually asks (`asked`).
+   (The former statement had "(N3)/(V3) the cost kernel is not NaN for EVERY parameter vector", "(N2)/(V1)/(V5) for ALL
+   points / tracks": false of every binary64 kernel, e.g. p = [nan; ..].)
+
+   THE UNPROVED NUMERIC GAPS (not proved anywhere; monitored on the implementation by the panic search `tot09` and by
+   C14's rel14f / rel14v):
+     (N3e) on every vector the optimiser asks while fitting a cluster of this event, started from that cluster's
+           initial simplex, Problem::cost returns a `good` number, i.e. (C14_cost_ok_iff) the
+           assert!(!val.is_nan()) of track_fitting.rs:265 does not fire.  FALSE of the implementation on the class of
+           the open finding F9 (C14_tinyphi_known_witness); the theorem says nothing there.
+     (N4e) argmin: on that simplex the optimiser is well formed (wf_strategy good 6): while the answers are good it asks
+           vectors of 6 components, does not fail by itself, and best_param is a vector it has asked.
+     (V3e), (V4e) the same for the vertex cost (vertex_fitting.rs:231), the tracks / mean z the vertex fit of this event
+           is run on (vertex_best) and dimension 3.
+     (Z1)  SpacePoint::try_from does not panic on any avalanche of the event (see below).
+   NUMERIC PREMISES THAT ARE FACTS ABOUT THE EVENT'S VALUES, likewise not proved here:
+     (N2)  |p.r - (a.r + b.r)/2| is not NaN for points of a cluster of the event (finite radii; discharged for binary64
+           radii with |r| <= 1 m in C14_fit_skeleton_total_binary64),
+     (V1)  z of the closest approach to the beamline is not NaN for the tracks of the event,
+     (V2bc) the sums of helix radii of the beamline clusters of those tracks - the sums max_by compares at
+           vertex_fitting.rs:45-51 - are not NaN (C14 states it for all lists of tracks of the event),
+     (V5)  Track's derived PartialEq is reflexive on those tracks (no NaN field).
+   LAWS / SHAPE (true of the real code, stated because the types are abstract): (C15) no Hough bin is listed twice for a
+   point; (N1) IEEE: partial_cmp of two non-NaN numbers is Some (proved for binary64: Fit_proofs.fcmp_prim_total);
+   with_sd_tolerance gets a non-negative tolerance; sort_unstable_by returns a permutation (std); `==` of tracks is
+   symmetric and transitive (true of f64 fields, NaN included).
+   DROPPED with respect to the former statement, because the proof does not use them: (N5) the lengths of the initial
+   guesses (6 and 3) - the dimension is part of (N4e)/(V4e) now; the cluster length >= 3 comes from C15 (>= 13).
+
    Where NaN-freedom of (r, phi, z) has to come from - it is needed twice: C15's model identifies a point with its
    equality class, which exists only if SpacePoint's derived `==` is reflexive (no NaN coordinate:
    `position(|p| p == x).unwrap()` in the remainder bookkeeping panics otherwise), and (Z1):
@@ -201,7 +248,7 @@ Print Assumptions C09_vertex_wrapper_total.
           `drift <t> <phi> 7ff8000000000000` -> panic).  Such amplitudes cannot be produced from i16 samples, the
           shipped gains and the shipped response (an amplitude is at most |sample| / |response bin|), but that
           bound is a numeric fact about the tables which is not proved here.
-   So the remaining hypothesis is (Z1), i.e. "no pad-hit centroid of the event is NaN" + C18's lookup totality. *)
+   So (Z1) is "no pad-hit centroid of the event is NaN" + C18's lookup totality. *)
 Theorem C09_vertex_total_partial :
   forall (A F vpoint : Type) (sp_of : A -> res Cluster.point)
     (bins : Cluster.point -> list Cluster.bin) (near : Cluster.point -> Cluster.point -> bool)
@@ -210,39 +257,113 @@ Theorem C09_vertex_total_partial :
     (fhalf fabs : F -> F) (fzero : F)
     (guess6 : list Cluster.point -> Cluster.point -> Cluster.point -> Cluster.point -> list F) (bump : F -> F)
     (point_val closest : list F -> Cluster.point -> F)
-    (nm : (list F -> res F) -> list (list F) -> res (option (list F))) (sd_tol_ok : bool)
+    (ftree vtree : list (list F) -> Fit.strategy F) (good : F -> Prop) (sd_tol_ok : bool)
     (teq : Fit.track F -> Fit.track F -> bool) (t_zb t_rad : Fit.track F -> F) (is_primary : Fit.track F -> bool)
     (close_z : F -> F -> bool) (sumF : list F -> F) (mean_z : list (Fit.track F) -> F)
     (sortP : list (Fit.track F) -> list (Fit.track F)) (vpoint_of : list F -> vpoint)
     (vcost_val : list (Fit.track F) -> list F -> Fit.track F -> F) (vguess : F -> list F)
     (tclosest : Fit.track F -> vpoint -> F),
+  let cluster := Cluster.cluster_spacepoints_pub bins near in
+  let cost := Fit.cost F Cluster.point fnan fadd fzero point_val in
+  let fit_simplex := Fit.fit_simplex F Cluster.point p_r p_x p_y flt feq fcmp fadd fsub fmul fhalf fabs guess6 bump in
+  let fit := Fit.fit_cluster_to_helix F Cluster.point p_r p_x p_y flt feq fcmp fnan fadd fsub fmul fhalf fabs fzero
+               guess6 bump point_val closest (fun c s => Fit.run_strategy c (ftree s)) sd_tol_ok in
+  let vcost := Fit.vcost F fnan fadd fzero (Fit.track F) vcost_val in
+  let beamline_clusters := Fit.beamline_clusters F fcmp (Fit.track F) t_zb close_z mean_z sortP in
+  let vertex_best := Fit.vertex_best F fcmp (Fit.track F) t_zb t_rad is_primary close_z sumF mean_z sortP in
+  let find := Fit.find_vertices F vpoint fcmp fnan fadd fzero bump (fun c s => Fit.run_strategy c (vtree s)) sd_tol_ok
+                (Fit.track F) teq t_zb t_rad is_primary close_z sumF mean_z sortP vpoint_of vcost_val vguess tclosest in
   (* C15 *) (forall p, NoDup (bins p)) ->
   (* N1 *) (forall x y, fnan x = false -> fnan y = false -> fcmp x y <> None) ->
-  (* N2 *) (forall a b p, fnan (Fit.dev F Cluster.point p_r fsub fabs (fhalf (fadd (p_r a) (p_r b))) p) = false) ->
-  (* N3 *) (forall p q, fnan (point_val p q) = false) ->
-  (* N4 = V4 *) (forall (c : list F -> res F) s n,
-              (forall p, length p = n -> c p <> Panic /\ forall k, c p <> Err k) ->
-              Forall (fun v => length v = n) s -> s <> [] ->
-              exists v, nm c s = Ok (Some v) /\ length v = n) ->
-  (* N5 *) (forall pts f m l, length (guess6 pts f m l) = 6%nat) -> sd_tol_ok = true ->
+  sd_tol_ok = true ->
   (* std *) (forall l, Permutation (sortP l) l) ->
-  (* V1 *) (forall a b, fcmp (t_zb a) (t_zb b) <> None) ->
-  (* V2 *) (forall x y, fcmp (sumF (map t_rad x)) (sumF (map t_rad y)) <> None) ->
-  (* V3 *) (forall ts p t, fnan (vcost_val ts p t) = false) ->
-  (forall z, length (vguess z) = 3%nat) ->
-  (* V5 *) (forall t, teq t t = true) -> (forall a b, teq a b = true -> teq b a = true) ->
+  (forall a b, teq a b = true -> teq b a = true) ->
   (forall a b c, teq a b = true -> teq b c = true -> teq a c = true) ->
   forall avs : list A,
   (* Z1 *) (forall a, In a avs -> sp_of a <> Panic) ->
-  exists v,
-    vertex_res sp_of (Cluster.cluster_spacepoints_pub bins near)
-      (Fit.fit_cluster_to_helix F Cluster.point p_r p_x p_y flt feq fcmp fnan fadd fsub fmul fhalf fabs fzero
-         guess6 bump point_val closest nm sd_tol_ok)
-      (Fit.find_vertices F vpoint fcmp fnan fadd fzero bump nm sd_tol_ok (Fit.track F) teq t_zb t_rad is_primary
-         close_z sumF mean_z sortP vpoint_of vcost_val vguess tclosest)
-      (Ok avs) = Ok v.
+  (* N2 *) (forall cl c, vertex_clusters sp_of cluster avs = Ok cl -> In c cl ->
+              forall a b p, In a c -> In b c -> In p c ->
+              fnan (Fit.dev F Cluster.point p_r fsub fabs (fhalf (fadd (p_r a) (p_r b))) p) = false) ->
+  (* N3e *) (forall cl c, vertex_clusters sp_of cluster avs = Ok cl -> In c cl ->
+              forall s, fit_simplex c = Ok s ->
+              forall p, In p (Fit.asked (cost c) (ftree s)) -> exists y, cost c p = Ok y /\ good y) ->
+  (* N4e *) (forall cl c, vertex_clusters sp_of cluster avs = Ok cl -> In c cl ->
+              forall s, fit_simplex c = Ok s -> Fit.wf_strategy good 6 [] (ftree s)) ->
+  (* V1 *) (forall trs, vertex_tracks sp_of cluster fit avs = Ok trs ->
+              forall a b, In a trs -> In b trs -> fcmp (t_zb a) (t_zb b) <> None) ->
+  (* V2bc *) (forall trs, vertex_tracks sp_of cluster fit avs = Ok trs ->
+              forall bc a b, beamline_clusters (filter is_primary trs) = Ok bc -> In a bc -> In b bc ->
+              fcmp (sumF (map t_rad (fst a))) (sumF (map t_rad (fst b))) <> None) ->
+  (* V3e *) (forall trs, vertex_tracks sp_of cluster fit avs = Ok trs ->
+              forall ts mz s, vertex_best trs = Ok (Some (ts, mz)) -> Fit.initial_simplex F bump (vguess mz) = Ok s ->
+              forall p, In p (Fit.asked (vcost ts) (vtree s)) -> exists y, vcost ts p = Ok y /\ good y) ->
+  (* V4e *) (forall trs, vertex_tracks sp_of cluster fit avs = Ok trs ->
+              forall ts mz s, vertex_best trs = Ok (Some (ts, mz)) -> Fit.initial_simplex F bump (vguess mz) = Ok s ->
+              Fit.wf_strategy good 3 [] (vtree s)) ->
+  (* V5 *) (forall trs, vertex_tracks sp_of cluster fit avs = Ok trs -> forall t, In t trs -> teq t t = true) ->
+  exists v, vertex_res sp_of cluster fit find (Ok avs) = Ok v.
 Proof. exact vertex_total_partial_lemma. Qed.
 Print Assumptions C09_vertex_total_partial.
+
+(* the premise set of C09_vertex_total_partial is jointly satisfiable: an instance over binary64 with the REAL cost
+   kernels of the track fit and of the vertex fit (coq/Recon/Helix.v), closest_t, three_template_points, beamline_clusters,
+   find_vertices; TOY parts (listed in coq/Signal/VertexInst.v): software libm, the simplex prober mini_nm instead of
+   argmin, table-driven SpacePoint::try_from / Hough bins / distance, constant initial guess of the track fit, filters that
+   accept every track, identity sort, bit-pattern equality of tracks.  The event has 26 points on two helices and one
+   rejected avalanche; it leads to 2 clusters of 13 points, 2 tracks and one vertex. *)
+From AG Require Signal.VertexInst Signal.VertexInst_proofs.
+Example C09_vertex_premises_satisfiable :
+  let cluster := VertexInst.VI.cluster in let fit := VertexInst.VI.fit in
+  (* C15 *) (forall p, NoDup (VertexInst.VI.bins p)) /\
+  (* Z1 *) (forall a, In a VertexInst.VI.avs -> VertexInst.VI.sp_of a <> Panic) /\
+  (* N2 *) (forall cl c, vertex_clusters VertexInst.VI.sp_of cluster VertexInst.VI.avs = Ok cl -> In c cl ->
+              forall a b p, In a c -> In b c -> In p c ->
+              PrimFloat.is_nan (Fit.dev float N VertexInst.VI.p_r PrimFloat.sub PrimFloat.abs
+                                  (VertexInst.VI.half (VertexInst.VI.p_r a + VertexInst.VI.p_r b)) p) = false) /\
+  (* N3e *) (forall cl c, vertex_clusters VertexInst.VI.sp_of cluster VertexInst.VI.avs = Ok cl -> In c cl ->
+              forall s, VertexInst.VI.fit_simplex c = Ok s ->
+              forall p, In p (Fit.asked (VertexInst.VI.cost c) (VertexInst.VI.tree s)) ->
+              exists y, VertexInst.VI.cost c p = Ok y /\ VertexInst.VI.good y) /\
+  (* N4e *) (forall cl c, vertex_clusters VertexInst.VI.sp_of cluster VertexInst.VI.avs = Ok cl -> In c cl ->
+              forall s, VertexInst.VI.fit_simplex c = Ok s -> Fit.wf_strategy VertexInst.VI.good 6 [] (VertexInst.VI.tree s)) /\
+  (* V1 *) (forall trs, vertex_tracks VertexInst.VI.sp_of cluster fit VertexInst.VI.avs = Ok trs ->
+              forall a b, In a trs -> In b trs -> Fit.fcmp_prim (VertexInst.VI.t_zb a) (VertexInst.VI.t_zb b) <> None) /\
+  (* V2bc *) (forall trs, vertex_tracks VertexInst.VI.sp_of cluster fit VertexInst.VI.avs = Ok trs ->
+              forall bc a b, VertexInst.VI.beamline_clusters (filter VertexInst.VI.is_primary trs) = Ok bc -> In a bc -> In b bc ->
+              Fit.fcmp_prim (VertexInst.VI.sumF (map VertexInst.VI.t_rad (fst a)))
+                            (VertexInst.VI.sumF (map VertexInst.VI.t_rad (fst b))) <> None) /\
+  (* V3e *) (forall trs, vertex_tracks VertexInst.VI.sp_of cluster fit VertexInst.VI.avs = Ok trs ->
+              forall ts mz s, VertexInst.VI.vertex_best trs = Ok (Some (ts, mz)) ->
+              Fit.initial_simplex float Fit.B64.bump (VertexInst.VI.vguess mz) = Ok s ->
+              forall p, In p (Fit.asked (VertexInst.VI.vcost ts) (VertexInst.VI.tree s)) ->
+              exists y, VertexInst.VI.vcost ts p = Ok y /\ VertexInst.VI.good y) /\
+  (* V4e *) (forall trs, vertex_tracks VertexInst.VI.sp_of cluster fit VertexInst.VI.avs = Ok trs ->
+              forall ts mz s, VertexInst.VI.vertex_best trs = Ok (Some (ts, mz)) ->
+              Fit.initial_simplex float Fit.B64.bump (VertexInst.VI.vguess mz) = Ok s ->
+              Fit.wf_strategy VertexInst.VI.good 3 [] (VertexInst.VI.tree s)) /\
+  (* V5 *) (forall t, VertexInst.VI.teq t t = true) /\
+  (forall a b, VertexInst.VI.teq a b = true -> VertexInst.VI.teq b a = true) /\
+  (forall a b c, VertexInst.VI.teq a b = true -> VertexInst.VI.teq b c = true -> VertexInst.VI.teq a c = true).
+Proof.
+  exact (conj VertexInst_proofs.VI_proofs.bins_nodup (conj VertexInst_proofs.VI_proofs.Z1_ok
+        (conj VertexInst_proofs.VI_proofs.N2_ok (conj VertexInst_proofs.VI_proofs.N3_ok
+        (conj VertexInst_proofs.VI_proofs.N4_ok (conj VertexInst_proofs.VI_proofs.V1_ok
+        (conj VertexInst_proofs.VI_proofs.V2_ok (conj VertexInst_proofs.VI_proofs.V3_ok
+        (conj VertexInst_proofs.VI_proofs.V4_ok (conj VertexInst_proofs.VI_proofs.teq_refl
+        (conj VertexInst_proofs.VI_proofs.teq_sym VertexInst_proofs.VI_proofs.teq_trans))))))))))).
+Qed.
+(* ... hence the theorem applies to it (the remaining premises - (N1) for binary64, the tolerance, the identity sort -
+   are discharged in VertexInst_proofs.vertex_total), and the model does run to a vertex *)
+Example C09_vertex_instance :
+  exists v, vertex_res VertexInst.VI.sp_of VertexInst.VI.cluster VertexInst.VI.fit VertexInst.VI.find
+              (Ok VertexInst.VI.avs) = Ok v.
+Proof. exact VertexInst_proofs.VI_proofs.vertex_total. Qed.
+Example C09_vertex_instance_runs :
+  match vertex_res VertexInst.VI.sp_of VertexInst.VI.cluster VertexInst.VI.fit VertexInst.VI.find (Ok VertexInst.VI.avs)
+  with Ok (Some _) => true | _ => false end = true
+  /\ map (@length N) VertexInst_proofs.VI_proofs.the_clusters = [13; 13]%nat
+  /\ length VertexInst_proofs.VI_proofs.the_tracks = 2%nat.
+Proof. exact VertexInst_proofs.VI_proofs.runs. Qed.
 
 (* the hypotheses are satisfiable on a non-trivial value, and the model is not vacuously total *)
 Example C09_avalanches_hypotheses_satisfiable :
